@@ -19,6 +19,7 @@ RULE = (
     "midpoint between consecutive distinct distances x projection x form {array, grid with 1..2 variables}. Oracle: integer squared "
     "distances (x4); a tie at the k-th neighbour is detected exactly and any admissible neighbour set is accepted. "
     "Non-trivial: k >= 2 data points."
+    " Added axes: integer dtypes per coordinate, projections (anisotropic, rotated, shrinking), parameter routes, caller overwriting the fitted arrays, scales 2^-30 / 2^20 and offset 2^23, four Dataset builds, scattered query order, extra coordinates for median_distance, 1e5 ... 1e6 query points with k = 12, 2, 7."
 )
 ASSUMPTIONS = ["only scipy's cKDTree path can run (pykdtree absent)", "equality thresholds are asserted only where the distance is an exactly "
                "representable number, so no verdict depends on how a square root was rounded"]
